@@ -7,7 +7,8 @@ IMPORTS = ("From Coq Require Import List Ascii String NArith Bool.\n"
            "From Galaxy.Base Require Import Strs.\nFrom Galaxy.Model Require Import Nets Netfilter Policy K8sPolicy.\n"
            "From Galaxy.Corr Require Import CorrBase C16c.\n")
 
-THEOREMS = ["enforces_partial", "enforces_partial_injective", "enforces_partial_node"]   # see Props/C16.v
+THEOREMS = ["enforces_partial_general", "enforces_partial_general_injective", "enforces_partial", "enforces_partial_injective",
+            "enforces_partial_node", "enforces_partial_policy_chain"]   # see Props/C16.v
 REFUTED = ["enforces_refuted", "enforces_refuted_podsel_all_ns", "enforces_refuted_nspod_ignores_ns",
            "enforces_refuted_empty_peers", "enforces_refuted_merged_except", "enforces_refuted_cross_talk",
            "enforces_refuted_egress_shortcut", "refutation_verdicts"]
@@ -51,20 +52,26 @@ MANIFEST = {
             "(enforces_refuted_podsel_all_ns, _nspod_ignores_ns, _empty_peers, _merged_except, _cross_talk, _egress_shortcut; "
             "refutation_verdicts gives both verdicts of each). Each witness is reproduced on the real PolicyManager and recorded "
             "as an open known finding (K6a-e, K6g). PROVED for all inputs is the positive half, the compiler-correctness "
-            "theorem enforces_partial (per node: enforces_partial_node; for an injective name hash: enforces_partial_injective): "
-            "for every name hash that does not collide on the policy keys and on the pod keys of the nodes the flow crosses, "
-            "every cluster in the fragment `frag` and every flow with 32-bit addresses and at most one hooked end per node, the "
-            "packet walk over the kernels that PolicyManager.Run installs (from a node without netfilter state) on the nodes of "
-            "the two ends gives EXACTLY the reference verdict: galaxy_allows H c f = k8s_allows c f. The fragment (a boolean "
-            "predicate, Proofs/K8sPolicyFragP.v, DESIGN.md appendix D): (1) every rule of the direction its policy affects has at "
-            "least one peer; (2) peers are ipBlocks, namespaceSelector-only peers, or podSelector-only peers all of whose matching "
-            "pods live in the policy's namespace (no peer with both selectors); (3) at most one ipBlock per rule, 32-bit CIDRs, "
-            "every exception a strictly longer prefix than its block; (4) numeric tcp/udp ports; (5) every policy affects exactly "
-            "one direction and no pod is isolated in both directions; (6, premise on the flow) no source pod / destination pod "
-            "pair on one node with the source egress-isolated and the destination ingress-isolated; plus well-formedness: "
-            "distinct policy keys, distinct pod keys, distinct 32-bit pod addresses. Each of (1)-(6) excludes exactly one of the "
-            "six refuted classes (K6c; K6a, K6b; K6d; -; K6e; K6g). The fragment is inhabited (enforces_partial_nonvacuous: two "
-            "policies, five pods on two nodes, three allowed and three denied flows). Outside the fragment, and for the link "
+            "theorem enforces_partial_general (per node: enforces_partial_node; one policy chain: "
+            "enforces_partial_policy_chain; for an injective name hash: *_injective): for every name hash that does not "
+            "collide on the policy keys and on the pod keys of the nodes the flow crosses, every cluster in the fragment "
+            "`frag_g` and every flow with 32-bit addresses, without cross-talk (`no_cross`) and with at most one hooked end per "
+            "node (`one_hooked`), the packet walk over the kernels that PolicyManager.Run installs (from a node without "
+            "netfilter state) on the nodes of the two ends gives EXACTLY the reference verdict: galaxy_allows H c f = "
+            "k8s_allows c f. The fragment (boolean predicates, Proofs/K8sPolicyFragP.v, DESIGN.md appendix D): (1) every rule "
+            "of a direction its policy affects has at least one peer; (2) peers are ipBlocks, namespaceSelector-only peers, or "
+            "podSelector-only peers all of whose matching pods live in the policy's namespace (no peer with both selectors); "
+            "(3) at most one ipBlock per rule, 32-bit CIDRs, every exception a strictly longer prefix than its block; (4) "
+            "numeric tcp/udp ports; well-formedness: distinct policy keys, distinct pod keys, distinct 32-bit pod addresses; "
+            "premises on the flow: (5) no_cross - no policy selecting an egress-isolated sender has an ingress rule matching "
+            "the flow and no policy selecting an ingress-isolated receiver has an egress rule matching it; (6) one_hooked - no "
+            "source pod / destination pod pair on one node with the source egress-isolated and the destination "
+            "ingress-isolated. enforces_partial is the corollary for the simple fragment `frag` (moreover every policy affects "
+            "exactly one direction and no pod is isolated in both directions), where (5) holds for every flow. Each of (1)-(6) "
+            "excludes one of the six refuted classes (K6c; K6a, K6b; K6d; -; K6e; K6g). Both fragments are inhabited "
+            "(enforces_partial_nonvacuous: two policies, five pods on two nodes, three allowed and three denied flows; "
+            "enforces_partial_general_nonvacuous: a policy affecting both directions, two allowed and three denied flows). "
+            "Outside the fragment, and for the link "
             "model <-> real code, the check decides the property differentially: the Coq packet walk over the rules the REAL code "
             "installed is compared with the Coq reference for all generated flows, and every disagreement must be explained by a "
             "combination of the six recorded divergences (Corr/C16c.v classify), otherwise it is a VIOLATION with the "
@@ -72,8 +79,7 @@ MANIFEST = {
     "note": "trusted: Coq kernel (no axioms); strict iptables/ipset fakes (semantics checked against real iptables 1.8.9 in a netns; "
             "ipset by man page); numeric TCP/UDP ports and matchLabels selectors only; enforces_partial is about the kernel a Run "
             "leaves on a node WITHOUT prior netfilter state (restart / event histories are C15's domain) and about the FORWARD "
-            "hook; the fragment's no-cross-talk condition (5) is the simple sufficient one (one direction per policy, no pod "
-            "isolated both ways), not the weakest; the agreement outside the fragment and outside the six divergence classes is "
+            "hook; the agreement outside the fragment and outside the six divergence classes is "
             "validated by generated cases, not by a theorem",
 }
 
